@@ -118,15 +118,23 @@ def monitor(am, engine, cx, events, snaps):
     handled_count = {}
     owners = {inv.iid: n.idx for n in am.nodes for inv in n.invoke}
     active = set()
+    at_begin_active = set()
     must_fail = None
     cur_begin = 0
     earlier = {}          # owner -> [(entered at, begin of the event during which it was left)] of its finished activations
     for i_, o in enumerate(log):
         if o[0] == "begin" and i_ + 1 < len(log) and log[i_ + 1][0] == "clock":
             now = log[i_ + 1][1]        # the clock stamp of an event follows its `begin` record
+        if o[0] == "begin":
+            at_begin_active = set(active)
+        if o[0] == "err":
+            active = set(at_begin_active)        # an aborted transition is rolled back (no enter / leave records for that)
         if o[0] == "clock":
             now = o[1]
         elif o[0] == "enter":
+            if o[1] in active and am.nodes[o[1]].invoke:
+                out.append(("state %d, which invokes a service, was entered at t=%d while it was already active (no exit in between): its services "
+                            "are started a second time within ONE activation, the first call is never cancelled" % (o[1], now), None))
             entered_at[o[1]] = now; act_no[o[1]] = act_no.get(o[1], 0) + 1
             active.add(o[1])
         elif o[0] == "leave":
@@ -189,6 +197,63 @@ def monitor(am, engine, cx, events, snaps):
     return out[:1]
 
 
+def region_machine(rng):
+    """an invoke declared on a REGION node (a direct child of a parallel state), and transitions whose domain is the parallel state
+    itself - declared on the parallel node, or crossing over from the sibling region - into a state strictly inside that region: the
+    region is left and entered again, so its service is cancelled and started afresh, once.  (Sixth-round seeded change C09-D no longer
+    exited the region node: it was entered a second time while active and its service ran twice in one activation.)"""
+    tid = itertools.count(1)
+    mark = itertools.count(1)
+    nodes = [Node(0, "m", None, "compound")]
+
+    def add(parent, key, kind):
+        n = Node(len(nodes), key, parent, kind)
+        nodes.append(n)
+        nodes[parent].children.append(n.idx)
+        return n.idx
+    p = add(0, "p", "parallel"); out_ = add(0, "out", "atomic"); ok = add(0, "ok", "atomic"); bad = add(0, "bad", "atomic")
+    r1 = add(p, "r1", "compound"); x = add(r1, "x", "atomic"); y = add(r1, "y", "atomic")
+    r2 = add(p, "r2", "compound"); u = add(r2, "u", "atomic"); v = add(r2, "v", "atomic")
+    nodes[0].initial = p; nodes[r1].initial = x; nodes[r2].initial = u
+    am = AM(nodes, max_iter=8)
+    durs = rng.sample([100, 210, 430, 870], 4)
+    inv = Invoke(iid="job", src=1, dur=durs[0], ok=rng.random() < 0.8, val=rng.randint(1, 9), machine=False)
+    inv.ondone = [Trans(next(tid), r1, "done.invoke.job", rng.choice([y, ok]), actions=[("mark", next(mark))])]
+    if rng.random() < 0.7:
+        inv.onerror = [Trans(next(tid), r1, "error.platform.job", bad, actions=[("mark", next(mark))])]
+    nodes[r1].invoke.append(inv)
+    if rng.random() < 0.5:
+        inv2 = Invoke(iid="side", src=2, dur=durs[1], ok=True, val=rng.randint(1, 9), machine=False)
+        inv2.ondone = [Trans(next(tid), r2, "done.invoke.side", v, actions=[("mark", next(mark))])]
+        nodes[r2].invoke.append(inv2)
+    for s_ in (r1, r2, x, y, out_):
+        nodes[s_].entry = [("mark", next(mark))]
+    nodes[p].on.append(("IN", [Trans(next(tid), p, "IN", y)]))                      # declared on the parallel node, into region r1
+    nodes[u].on.append(("CROSS", [Trans(next(tid), u, "CROSS", rng.choice([x, y]))]))  # from the sibling region
+    nodes[x].on.append(("STEP", [Trans(next(tid), x, "STEP", y)]))                  # inside the region: nothing restarts
+    nodes[0].on.append(("OUT", [Trans(next(tid), 0, "OUT", out_)]))
+    nodes[0].on.append(("BACK", [Trans(next(tid), 0, "BACK", p)]))
+    nodes[0].on.append(("SLOW", [Trans(next(tid), 0, "SLOW", None, actions=[("slow", next(mark), rng.choice([150, 450]))])]))
+    return am
+
+
+def region_family(rng, n, engines=("async", "sync")):
+    cases = []
+    for i in range(n):
+        am = region_machine(rng)
+        runs = []
+        for _ in range(2):
+            ops, t = [], 0
+            for k in range(1, rng.randint(3, 6) + 1):
+                t += rng.choice([40, 90, 110, 220, 440, 900]) // 10 * 10 + k
+                r = rng.random()
+                evs = [] if r < 0.15 else [(rng.choice(["IN", "CROSS", "STEP", "OUT", "BACK", "IN", "CROSS", "SLOW"]), "plain", 100 + k)]
+                ops.append(("at", t, evs))
+            runs.append(({0: 0}, ops))
+        cases.append((am, engines[i % len(engines)], runs, None))
+    return cases
+
+
 def run(rep, ctx):
     rng = random.Random(ctx["seed"] * 7919 + 9)
     big = ctx["tier"] == "thorough"
@@ -205,6 +270,13 @@ def run(rep, ctx):
         "state's id (async engine): left / re-entered before the child reaches its final state")
     dis += dis2
     fails += fails2
+    dis3, fails3, _ = common.run_macro_property(
+        rep, ctx, "c09_regions", region_family(rng, 240 if big else 60), monitor,
+        "an invoke on a REGION node of a parallel state; transitions whose domain is the parallel state (declared on it, or crossing over from "
+        "the sibling region) into a state strictly inside that region, steps inside the region, leaving and coming back: the region's service "
+        "is cancelled and restarted exactly when the region is left and entered again")
+    dis += dis3
+    fails += fails3
 
     def search(extra):
         _, f2, _ = common.run_macro_property(rep, ctx, "c09_search", family(random.Random(ctx["seed"] + 91), 300), monitor, "search: 300 more")
